@@ -31,7 +31,26 @@ def all_ops_q0():
     return ops
 
 
+# an OBJECT document whose member names need care in every view (escape-looking, separators, tokens); member i holds i
+AWKWARD = ["caf\\u00e9", "dir\\name", "C:\\x", "a/b", "~t", "\u00e9", "0", " ", "%41", "'q\"", "#k", ""]
+
+
+def _rfc6901(name):
+    return "/" + name.replace("~", "~0").replace("/", "~1")
+
+
 def gen(rng, tier):
+    ops0 = all_ops_q0()
+    for L in range(0, 2):
+        for chain in itertools.product(ops0, repeat=L):
+            for n in (0, 1, 3, 12):
+                for view in VIEWS:
+                    if L == 0 or view in ("pointers", "locations", "items"):
+                        yield {"ops": [list(o) for o in chain], "n": n, "view": view, "alias": (L + n) % 3, "shape": "object"}
+    yield from _gen_lists(rng, tier)
+
+
+def _gen_lists(rng, tier):
     maxlen = 3 if tier == "thorough" else 2
     ops0 = all_ops_q0()
     for L in range(0, maxlen + 1):
@@ -58,7 +77,7 @@ def gen(rng, tier):
                         live += c
             else:
                 ops.append([kind, q])
-        yield {"ops": ops, "n": n, "view": rng.choice(VIEWS), "alias": rng.randrange(3)}
+        yield {"ops": ops, "n": n, "view": rng.choice(VIEWS), "alias": rng.randrange(3), "shape": rng.choice(["list", "list", "object"])}
 
 
 def to_sx(case):
@@ -67,6 +86,34 @@ def to_sx(case):
 
 def _mid(m):
     return m.obj
+
+
+def _drain_object(q, view, data):
+    """the views over an object document: every location / pointer must lead back to the member it came from"""
+    by_ptr = {_rfc6901(k): v for k, v in data.items()}
+    if view == "iter":
+        return [_mid(m) for m in q]
+    if view == "values":
+        return list(q.values())
+    out = []
+    if view == "locations":
+        for p in q.locations():
+            got = jsonpath.findall(p, data)
+            if len(got) != 1:
+                return ["view-mismatch", p, got]
+            out.append(got[0])
+    elif view == "items":
+        for p, o in q.items():
+            if jsonpath.findall(p, data) != [o]:
+                return ["view-mismatch", p, o]
+            out.append(o)
+    else:
+        for ptr in q.pointers():
+            s = str(ptr)
+            if s not in by_ptr or ptr.resolve(data) != by_ptr[s]:
+                return ["view-mismatch", s]
+            out.append(by_ptr[s])
+    return out
 
 
 def _drain(q, view):
@@ -99,7 +146,11 @@ def _drain(q, view):
 
 def impl(case):
     data = list(range(case["n"]))
-    queries = [jsonpath.query("$[*]", data)]
+    if case.get("shape") == "object":
+        data = {AWKWARD[i]: i for i in range(min(case["n"], len(AWKWARD)))}
+        if case["n"] > len(AWKWARD):
+            return [[["exception", "harness: n too large for the object shape"]], []]
+    queries = [jsonpath.query("$[*]" if isinstance(data, list) else "$.*", data)]
     dead = set()
     events = []
     for o in case["ops"]:
@@ -139,7 +190,10 @@ def impl(case):
         if i in dead:
             finals.append([])
         else:
-            finals.append(_drain(Q, case["view"]))
+            try:
+                finals.append(_drain(Q, case["view"]) if isinstance(data, list) else _drain_object(Q, case["view"], data))
+            except Exception as e:  # noqa: BLE001  (a view that raises while being consumed is a finding)
+                finals.append(["view-raised", type(e).__name__])
     return [events, finals]
 
 
